@@ -12,6 +12,8 @@ import (
 
 	"github.com/dave/dst"
 	"github.com/dave/dst/decorator"
+	"github.com/dave/dst/decorator/resolver/goast"
+	"github.com/dave/dst/decorator/resolver/guess"
 	"pgregory.net/rapid"
 
 	"verif/internal/dsth"
@@ -310,10 +312,75 @@ func listSlots(root dst.Node) []slot {
 	return out
 }
 
+// checkSharePath: the same rule under import management, where a path-carrying identifier is
+// restored as a selector expression through a separate code path.
+func checkSharePath(t h.TB, c Case) {
+	const sub = "Sharing"
+	fset := token.NewFileSet()
+	af, err := parser.ParseFile(fset, "a.go", c.Src, parser.ParseComments)
+	if err != nil {
+		t.Fatalf("harness: %v", err)
+	}
+	f, err := decorator.NewDecoratorWithImports(fset, "example.com/self", goast.New()).DecorateFile(af)
+	if err != nil {
+		return // dot-imports etc.: the syntax-only resolver refuses the file
+	}
+	var calls []*dst.CallExpr
+	var idents []*dst.Ident
+	dst.Inspect(f, func(n dst.Node) bool {
+		switch n := n.(type) {
+		case *dst.CallExpr:
+			if !n.Ellipsis {
+				calls = append(calls, n)
+			}
+		case *dst.Ident:
+			if n.Path != "" {
+				idents = append(idents, n)
+			}
+		}
+		return true
+	})
+	if len(calls) == 0 || len(idents) == 0 {
+		return
+	}
+	id := idents[c.Node%len(idents)]
+	call := calls[c.Mut%len(calls)]
+	h.Label("share:path-identifier-under-import-management")
+	restore := func() (out string, pv interface{}) {
+		defer func() { pv = recover() }()
+		var buf bytes.Buffer
+		err := decorator.NewRestorerWithImports("example.com/self", guess.New()).Fprint(&buf, f)
+		if err != nil {
+			return "error: " + err.Error(), nil
+		}
+		return buf.String(), nil
+	}
+	if c.Share%2 == 0 {
+		call.Args = append(call.Args, id) // the identifier now occurs at two places
+		out, pv := restore()
+		if pv == nil {
+			h.Fail(t, sub, c, "a path-carrying identifier %s (%s) placed twice was not rejected under import management (%d bytes printed)", id.Name, id.Path, len(out))
+		}
+		if !strings.Contains(fmt.Sprint(pv), "duplicate node") {
+			h.Fail(t, sub, c, "sharing a path-carrying identifier panicked with %v, want a 'duplicate node' panic", pv)
+		}
+		return
+	}
+	call.Args = append(call.Args, dst.Clone(id).(dst.Expr))
+	out, pv := restore()
+	if pv != nil || strings.HasPrefix(out, "error: ") {
+		h.Fail(t, sub, c, "tree with a cloned path-carrying identifier does not print: %v %s", pv, out)
+	}
+}
+
 // checkShare: one node at two places is rejected with a panic at restore time; the same tree
 // built with Clone prints both occurrences.
 func checkShare(t h.TB, c Case) {
 	const sub = "Sharing"
+	if c.Share%5 == 4 {
+		checkSharePath(t, c)
+		return
+	}
 	f := parse(t, c.Src)
 	// candidate lists: declarations, block statements, call arguments, composite elements, fields
 	type list struct {
